@@ -628,6 +628,9 @@ pub fn cell_alphabet() -> &'static Vec<CellOp> {
                 v.push(CellOp::CasTag(e, t));
             }
         }
+        // a tag CAS to the tag the expected value already carries is still a comparison
+        v.push(CellOp::CasTag(Ex::Held, 0));
+        v.push(CellOp::CasTag(Ex::Last, 0));
         v.push(CellOp::Adv);
         // the weak variant with an expected value that differs from the content in its stamp
         // only, and with a tagged one
@@ -896,6 +899,8 @@ pub fn wcell_alphabet() -> &'static Vec<WCellOp> {
                 v.push(WCellOp::CasTag(e, t));
             }
         }
+        v.push(WCellOp::CasTag(WEx::ViaWeak, 0));
+        v.push(WCellOp::CasTag(WEx::Last, 0));
         v.push(WCellOp::Adv);
         v
     })
